@@ -5,3 +5,4 @@ import Generated.AbcSubst
 import Generated.Gates
 import Generated.VarsRules
 import Generated.FeasTable
+import Generated.EqFields
